@@ -23,7 +23,10 @@ RULE = ("simulator x admissible parameters (birth > death >= 0, tip counts 1.., 
         "one ulp below 1, or random.Random(seed)); also mean_kingman_tree, discrete_birth_death_tree with a generation limit, the entry "
         "options is_add_extinct_attr / repeat_until_success=False (compared) and is_assign_*_taxa=False (clause d only), star_tree; on the "
         "scripted stream every argument of rng.expovariate and the coalescent frames read back off Kingman trees are compared with "
-        "the model; a size sweep runs every simulator (contained coalescent with many surviving lineages: short tip branches / large "
+        "the model; multi-call histories through the dendropy.simulate.treesim wrapper layer (rand_trees, coalescence_ages, "
+        "birthdeath_coalescence_ages, the re-exported simulators, star_tree) that reuse caller-owned keyword maps (dict / OrderedDict / "
+        "read-only proxy; map, list-of-maps and factory forms), taxon namespaces and the containing tree, each call with a generator of "
+        "its own (seeded, scripted, or none); a size sweep runs every simulator (contained coalescent with many surviving lineages: short tip branches / large "
         "populations) at tip / gene / lineage counts from {31,32,33,40,63,64,65,100,128,200,256}; thorough adds every decision tape of bounded depth (small scope) and "
         "fresh-interpreter runs; non-trivial = at least one death event or restart, or >= 4 tips/genes")
 MODELLED_NOT_VERIFIED = [
@@ -974,6 +977,276 @@ def history_case(ctx, dendropy, case, pending):
         ctx.fail(kind, "%s: %s" % (describe(case), what), case)
 
 
+# ------------------------------------------------------------------------------------------------ histories through the treesim wrapper layer
+# every public function of dendropy.simulate.treesim, called several times in a row on caller-owned argument objects that are
+# REUSED between the calls (keyword maps, taxon namespaces, the containing tree), each call with a generator of its own
+WRAP_FNS = ("bd", "king", "mking", "pb", "dbd")
+
+
+def wrap_model_fn(name):
+    from dendropy.simulate import treesim
+    return {"bd": treesim.birth_death_tree, "king": treesim.pure_kingman_tree, "mking": treesim.mean_kingman_tree,
+            "pb": treesim.uniform_pure_birth_tree, "dbd": treesim.discrete_birth_death_tree}[name]
+
+
+def wrap_objects(dendropy, p, ns_state=None, kw_state=None):
+    """the caller-owned objects of a history: namespaces (optionally as they stand: `ns_state` = label lists), keyword maps of the
+    requested mapping class (optionally with the keys as they stand), the containing tree with its gene map"""
+    import collections
+    import types
+    nss = []
+    for i, spec in enumerate(p["ns"]):
+        nss.append(mk_namespace(dendropy, spec) if ns_state is None else dendropy.TaxonNamespace(ns_state[i]))
+    kws = []
+    for i, spec in enumerate(p["kw"]):
+        d = collections.OrderedDict() if spec["class"] == "odict" else {}
+        for k, v in spec["items"]:
+            d[k] = nss[v["ns"]] if isinstance(v, dict) else (float(Fraction(v)) if isinstance(v, str) else v)
+        if kw_state is not None:
+            for k in kw_state[i]:
+                if k not in d:
+                    d[k] = "<extra>"
+        kws.append(types.MappingProxyType(d) if spec["class"] == "proxy" else d)
+    sp = gmap = None
+    if p.get("sp") is not None:
+        sp, leaves = species_tree(dendropy, p["sp"])
+        gmap = dendropy.TaxonNamespaceMapping.create_contained_taxon_mapping(
+            containing_taxon_namespace=sp.taxon_namespace, num_contained=[p["sp"]["ng"][i] for i in leaves],
+            contained_taxon_label_separator="_")
+    return {"ns": nss, "kw": kws, "sp": sp, "gmap": gmap}
+
+
+def wrap_snapshot(objs):
+    """what the caller can see of its own objects: labels of every namespace, keys and (scalar) values of every keyword map with
+    namespaces by position, the containing tree"""
+    pos = dict((id(n), i) for i, n in enumerate(objs["ns"]))
+    kw = []
+    for d in objs["kw"]:
+        kw.append([(k, "ns%d" % pos[id(v)] if id(v) in pos else repr(v)) for k, v in d.items()])
+    return {"ns": [[t.label for t in n] for n in objs["ns"]], "kw": kw,
+            "sp": None if objs["sp"] is None else canon(objs["sp"], True)}
+
+
+def wrap_kwargs_fn(shared, nss):
+    """a keyword-map factory for rand_trees: parameters drawn from the generator it is handed"""
+    def fn(rep_idx, rng):
+        d = own_kwargs(shared)
+        d["num_extant_tips"] = 2 + rng.randint(0, 3) + rep_idx
+        return d
+    return fn
+
+
+def own_kwargs(m):
+    """the caller's keyword map as the caller wrote it: a generator entry that a wrapper may have left behind in it is the
+    wrapper's doing (reported by clause (c)), not part of the arguments of this call"""
+    d = dict(m)
+    d.pop("rng", None)
+    return d
+
+
+def wrap_result(x):
+    if isinstance(x, list):
+        return [wrap_result(y) for y in x]
+    if hasattr(x, "seed_node"):
+        return canon(x)
+    return repr(x)
+
+
+def wrap_call(dendropy, objs, step, rng, direct):
+    """one call of the history through the wrapper layer (`direct=False`), or what it has to return: the simulator itself run on
+    the same arguments from the same generator state (`direct=True`)"""
+    from dendropy.simulate import treesim
+    from dendropy.calculate import treemeasure
+    op = step["op"]
+    if op in ("rand_trees", "coalescence_ages", "birthdeath_coalescence_ages"):
+        fn = wrap_model_fn("bd" if op == "birthdeath_coalescence_ages" else step["fn"])
+        form, n = step["form"], step["n"]
+        if form == "map":
+            arg = objs["kw"][step["kw"][0]]
+        elif form == "list":
+            arg = [objs["kw"][i] for i in step["kw"]]
+        else:
+            arg = wrap_kwargs_fn(objs["kw"][step["kw"][0]], objs["ns"])
+        if not direct:
+            if op == "rand_trees":
+                return wrap_result(list(treesim.rand_trees(rng, fn, arg, n)))
+            if op == "coalescence_ages":
+                return wrap_result(treesim.coalescence_ages(rng, fn, arg, n))
+            return wrap_result(treesim.birthdeath_coalescence_ages(rng, arg, n))
+        trees = []
+        for rep_idx in range(n):
+            if form == "map":
+                trees.append(fn(rng=rng, **own_kwargs(arg)))
+            elif form == "list":
+                for m in arg:
+                    trees.append(fn(rng=rng, **own_kwargs(m)))
+            else:
+                trees.append(fn(rng=rng, **own_kwargs(arg(rep_idx, rng))))
+        if op == "rand_trees":
+            return wrap_result(trees)
+        return wrap_result([treemeasure.coalescence_ages(t) for t in trees])
+    # the re-exported simulators, on the shared objects
+    if op == "bd":
+        return wrap_result(treesim.birth_death_tree(rng=rng, **own_kwargs(objs["kw"][step["kw"][0]])))
+    if op in ("king", "mking", "pb"):
+        ns = objs["ns"][step["ns"]]
+        if op == "pb":
+            return wrap_result(treesim.uniform_pure_birth_tree(ns, 1.0, rng=rng))
+        return wrap_result((treesim.pure_kingman_tree if op == "king" else treesim.mean_kingman_tree)(ns, pop_size=step["pop"], rng=rng))
+    if op == "star":
+        return wrap_result(treesim.star_tree(objs["ns"][step["ns"]]))
+    if op == "cont":
+        return wrap_result(treesim.contained_coalescent_tree(objs["sp"], objs["gmap"], rng=rng))
+    if op == "ckt":
+        g, _ = treesim.constrained_kingman_tree(objs["sp"], rng=rng, gene_sampling_strategy="fixed_per_population", num_genes=step["num_genes"],
+                                                gene_node_label_fn=lambda x, y: "%s_%d" % (x, y), decorate_original_tree=False)
+        return wrap_result(g)
+    raise ValueError(op)
+
+
+def gen_wrap_hist(rng):
+    nss = [[rng.choice(["t", "sp", "T"]), rng.randint(2, 6)] for _ in range(rng.randint(1, 2))]
+    kws = []
+    for _ in range(rng.randint(1, 2)):
+        fn = rng.choice(["bd", "bd", "bd", "king", "mking", "pb", "dbd"])
+        if fn == "bd":
+            b = Fraction(rng.choice(RATES))
+            items = [["birth_rate", str(b)], ["death_rate", str(b * rng.choice([Fraction(0), Fraction(1, 4), Fraction(1, 2)]))],
+                     ["num_extant_tips", rng.randint(2, 6)]]
+            if rng.random() < 0.4:
+                items.append(["taxon_namespace", {"ns": rng.randrange(len(nss))}])
+            if rng.random() < 0.3:
+                items.append(["is_retain_extinct_tips", True])
+        elif fn == "dbd":
+            items = [["birth_rate", rng.choice(["1/4", "1/2"])], ["death_rate", "0"], ["ntax", rng.randint(2, 6)]]
+        elif fn == "pb":
+            items = [["taxon_namespace", {"ns": rng.randrange(len(nss))}], ["birth_rate", rng.choice(RATES)]]
+        else:
+            items = [["taxon_namespace", {"ns": rng.randrange(len(nss))}], ["pop_size", rng.choice([1, 2, 5])]]
+        rng.shuffle(items)
+        kws.append({"fn": fn, "class": rng.choice(["dict", "dict", "dict", "odict", "proxy"]), "items": items})
+    p = {"ns": nss, "kw": kws, "sp": None, "steps": []}
+    if rng.random() < 0.35:
+        sp = gen_species(rng, 3, False)
+        sp["len"] = [x if (x is not None or i == 0) else "1" for i, x in enumerate(sp["len"])]
+        p["sp"] = sp
+    bd_maps = [i for i, k in enumerate(kws) if k["fn"] == "bd"]
+    for si in range(rng.randint(2, 5)):
+        r = rng.random()
+        ki = rng.randrange(len(kws))
+        if r < 0.6:
+            op = rng.choice(["rand_trees", "rand_trees", "coalescence_ages", "birthdeath_coalescence_ages"])
+            form = rng.choice(["map", "map", "map", "list", "fn"])
+            if (op == "birthdeath_coalescence_ages" or form != "map") and not bd_maps:
+                op, form = "rand_trees", "map"
+            if op == "birthdeath_coalescence_ages" or form != "map":
+                ki = rng.choice(bd_maps)
+            if op == "coalescence_ages" and kws[ki]["fn"] in ("dbd",):
+                op = "rand_trees"
+            step = {"op": op, "fn": kws[ki]["fn"], "form": form, "n": rng.randint(1, 3),
+                    "kw": [ki] + ([rng.choice(bd_maps)] if form == "list" and rng.random() < 0.6 else [])}
+        elif r < 0.7 and bd_maps:
+            step = {"op": "bd", "kw": [rng.choice(bd_maps)]}
+        elif r < 0.9 or p["sp"] is None:
+            step = {"op": rng.choice(["king", "mking", "pb", "star"]), "ns": rng.randrange(len(nss)), "pop": rng.choice([1, 2, 5])}
+        else:
+            step = {"op": rng.choice(["cont", "ckt"]), "num_genes": rng.randint(1, 3)}
+        # the generator of this call: usually a seeded one of its own; now and then none at all (the wrapper then makes one up)
+        # or a scripted one
+        g = rng.random()
+        if g < 0.12 and step["op"] in ("rand_trees", "coalescence_ages", "birthdeath_coalescence_ages") and si < 3:
+            step["rng"] = None
+        elif g < 0.25:
+            step["rng"] = gen_script(rng)
+        else:
+            step["rng"] = {"kind": "real", "seed": rng.getrandbits(32)}
+        p["steps"].append(step)
+    return {"sim": "wrap_hist", "params": p, "rng": {"kind": "real", "seed": 0}}
+
+
+GROWS_NAMESPACE = ("bd", "dbd")        # documented: missing taxa are created in the namespace handed over
+
+
+def wrap_run(dendropy, p, problems=None):
+    """run the history once on fresh caller-owned objects; returns the results of the seeded calls (None for a call without
+    generator).  With `problems` the per-call oracles (b), (c), (d) are evaluated as well."""
+    objs = wrap_objects(dendropy, p)
+    outs = []
+    for si, step in enumerate(p["steps"]):
+        tag = "call %d (%s)" % (si + 1, json.dumps(dict((k, v) for k, v in step.items() if k != "rng"), sort_keys=True))
+        before = wrap_snapshot(objs)
+        if step["rng"] is None:
+            with time_limit(30):
+                wrap_call(dendropy, objs, step, None, False)
+            outs.append(None)
+        else:
+            with GlobalWatch() as gw:
+                with time_limit(30):
+                    got = wrap_call(dendropy, objs, step, make_rng(step["rng"]), False)
+            outs.append(got)
+            if problems is not None:
+                if gw.touched():
+                    problems.append(("global_rng/wrapper", "%s also used %s" % (tag, " and ".join(gw.touched()))))
+                # (b) the simulator itself on equal arguments (copies as they stood before the call), equal generator state
+                copies = wrap_objects(dendropy, p, ns_state=before["ns"])
+                with time_limit(30):
+                    want = wrap_call(dendropy, copies, step, make_rng(step["rng"]), True)
+                if got != want:
+                    problems.append(("wrapper_stale_state", "%s of the history returned %s; the simulator run directly on equal arguments from "
+                                     "an equal generator state returns %s" % (tag, json.dumps(got)[:260], json.dumps(want)[:260])))
+        if problems is not None:
+            # (c) the caller's own objects: nothing added to / changed in a keyword map, the containing tree untouched, a
+            # namespace at most extended by a simulator documented to create missing taxa
+            after = wrap_snapshot(objs)
+            if after["kw"] != before["kw"]:
+                problems.append(("argument_mutated", "%s changed the caller's keyword map(s): %s -> %s" % (tag, json.dumps(before["kw"])[:200], json.dumps(after["kw"])[:200])))
+            if after["sp"] != before["sp"]:
+                problems.append(("argument_mutated", "%s changed the caller's containing tree" % tag))
+            may_grow = step.get("fn") in GROWS_NAMESPACE or step["op"] in ("bd", "birthdeath_coalescence_ages") or step.get("form") == "list"
+            for a, b in zip(before["ns"], after["ns"]):
+                if (b[:len(a)] != a) or (len(b) != len(a) and not may_grow):
+                    problems.append(("argument_mutated", "%s changed the caller's taxon namespace: %s -> %s" % (tag, a[:12], b[:12])))
+    return outs
+
+
+def wrapper_case(ctx, dendropy, case):
+    p = case["params"]
+    problems = []
+    try:
+        first = wrap_run(dendropy, p, problems)
+        second = wrap_run(dendropy, p)
+    except ScriptExhausted:
+        ctx.count("script_exhausted")
+        return
+    except Timeout:
+        ctx.fail("hang", "%s did not return within 30 s" % describe(case), case)
+        return
+    except Exception as e:
+        import common
+        if not common.is_library_exception(e):
+            raise
+        ctx.fail("exception", "%s raised %s: %s" % (describe(case), type(e).__name__, str(e)[:200]), case)
+        return
+    # (a) equal generator states => equal results, call by call.  A call without generator makes one up: nothing is claimed for
+    # it, and the calls after it must not depend on it.
+    for si, (a, b) in enumerate(zip(first, second)):
+        if a is None:
+            # the made-up generator may have grown a shared namespace differently in the two runs: from here on the runs are
+            # not comparable with one another (each later call is still held against the direct simulator, clause (b))
+            break
+        if a != b:
+            problems.append(("nondeterministic", "call %d of the history: two runs of the whole history on equal arguments from equal generator "
+                             "states returned %s vs %s" % (si + 1, json.dumps(a)[:250], json.dumps(b)[:250])))
+            break
+    ctx.case([case["sim"], p], True, sample={"case": case} if len(json.dumps(case)) < 1800 else None, kind="wrap_hist")
+    seen = set()
+    for kind, what in problems:
+        if kind in seen:
+            continue
+        seen.add(kind)
+        ctx.fail(kind, "%s: %s" % (describe(case), what), case)
+
+
 # ------------------------------------------------------------------------------------------------ one case
 def describe(case):
     return "%s %s rng=%s" % (case["sim"], json.dumps(case["params"], sort_keys=True), case["rng"]["kind"])
@@ -983,6 +1256,8 @@ def one_case(ctx, dendropy, case, pending, compare=True):
     sim = case["sim"]
     if sim == "cont_hist":
         return history_case(ctx, dendropy, case, pending)
+    if sim == "wrap_hist":
+        return wrapper_case(ctx, dendropy, case)
     scripted = case["rng"]["kind"] == "script"
     exact = scripted and sim != "mking"      # mean_kingman_tree: lengths are k-th parts, not dyadic, under either generator
     runs = []
@@ -1807,6 +2082,8 @@ def run(ctx):
             case = gen_taxon_flags(rng, max_n)
         if rng.random() < 0.05:
             case = gen_hist(rng)
+        if rng.random() < 0.06:
+            case = gen_wrap_hist(rng)
         if rng.random() < 0.07:
             case = gen_gsa(rng, max_n)
         if rng.random() < 0.004:
@@ -1814,7 +2091,7 @@ def run(ctx):
             sim0 = rng.choice(["pb", "king"])
             case = {"sim": sim0, "params": {"ns": ["sp", 0], "b": "1", "pop": 1}, "rng": gen_script(rng), "expect_error": True}
         one_case(ctx, dendropy, case, pending)
-        if case["sim"] not in ("rv", "cont_hist", "gsa") and not case.get("expect_error") and len(fresh) < ctx.pick(16, 60) and rng.random() < 0.2:
+        if case["sim"] not in ("rv", "cont_hist", "gsa", "wrap_hist") and not case.get("expect_error") and len(fresh) < ctx.pick(16, 60) and rng.random() < 0.2:
             fresh.append(case)
         if len(pending) >= 300:
             flush(ctx, pending)
@@ -1861,6 +2138,10 @@ def search(ctx, broken):
         one_case(ctx, dendropy, case, pending)
         ctx.count("search_cases")
     flush(ctx, pending)
+    for _ in range(ctx.pick(150, 1500)):
+        if ctx.out_of_time() or ctx.failures:
+            break
+        one_case(ctx, dendropy, gen_wrap_hist(rng), pending)
     if not ctx.failures:
         size_sweep(ctx, dendropy, pending, ctx.pick(64, 600), ctx.pick(12, 120))
 
